@@ -117,7 +117,6 @@ def _check_capacity_exceeded(ctx, allocs):
     # inventory will have its capacity exceeded.
     rc_ids = set([ctx.rc_cache.id_from_string(a.resource_class)
                   for a in allocs])
-    provider_uuids = set([a.resource_provider.uuid for a in allocs])
     provider_ids = set([a.resource_provider.id for a in allocs])
     usage = sa.select(
         _ALLOC_TBL.c.resource_provider_id,
@@ -168,7 +167,11 @@ def _check_capacity_exceeded(ctx, allocs):
             raise KeyError("%s already in usage_map, bad query" % str(map_key))
         usage_map[map_key] = record
         provs_with_inv.add(record.uuid)
-    # Ensure that all providers have existing inventory
+    # Ensure that all providers something is asked of have existing
+    # inventory. An allocation of zero only removes what its consumer holds;
+    # its provider may have lost its inventory to a concurrent request, which
+    # the provider generation check below reports as the conflict it is.
+    provider_uuids = set(a.resource_provider.uuid for a in allocs if a.used)
     missing_provs = provider_uuids - provs_with_inv
     if missing_provs:
         class_str = ', '.join([ctx.rc_cache.string_from_id(rc_id)
